@@ -746,6 +746,12 @@ func (fr *Frame) logCall(ctx *callCtx, callee *ssa.Function) {
 		hn := "callarg_" + mangle(name) + "_" + mangle(p.Name())
 		e.setHeap(ctx.st, hn, srt, ctx.args[i].S)
 		e.callArgTypes[hn] = p.Type()
+		// running sum of numeric arguments over all calls (argsum(F, p) in contracts)
+		switch kindOf(p.Type()) {
+		case kInt, kMathInt, kDec:
+			sn := "callsum_" + mangle(name) + "_" + mangle(p.Name())
+			e.setHeap(ctx.st, sn, "Int", app("+", e.heap(ctx.st, sn, "Int"), ctx.args[i].S))
+		}
 	}
 }
 
@@ -967,7 +973,7 @@ func (fr *Frame) copyOp(ctx *callCtx) Val {
 func mentionsCallLog(x Expr) bool {
 	switch y := x.(type) {
 	case *ECall:
-		if y.Fn == "arg" || y.Fn == "ret" || y.Fn == "called" {
+		if y.Fn == "arg" || y.Fn == "ret" || y.Fn == "called" || y.Fn == "argsum" {
 			return true
 		}
 		for _, a := range y.Args {
